@@ -24,6 +24,9 @@ func main() {
 	if len(os.Args) > 4 && os.Args[1] == "fields" {
 		os.Exit(debugFields(os.Args[2], os.Args[3], os.Args[4]))
 	}
+	if len(os.Args) > 2 && os.Args[1] == "describe" {
+		os.Exit(describe(os.Args[2]))
+	}
 	if len(os.Args) > 1 && os.Args[1] == "selftest" {
 		os.Exit(selftestMain(os.Args[2:]))
 	}
